@@ -28,7 +28,7 @@
 #include <unistd.h>
 
 extern "C" int lltd_embedded_main(int argc, const char *argv[]);
-extern "C" void w2_set_link(void *thread_arg, uint32_t ifType, uint32_t linkSpeedBps, uint32_t mediumType);
+extern "C" void w2_set_link(void *thread_arg, uint32_t ifType, uint32_t linkSpeedBps, uint32_t mediumType, int kind);
 extern "C" const char *w2_iface_name(void *thread_arg);
 extern "C" {
 extern char __start_corebss[] __attribute__((weak));
@@ -215,6 +215,7 @@ static W2Plan gen_w2(const std::string &prop, uint64_t vseed, uint64_t index) {
             e.a = r.chance(0.5) ? (uint32_t)r.pickl({6, 71, 0, 0xFFFFFFFFll, 0x100}) : (uint32_t)r.next();
             e.b = r.chance(0.5) ? (uint32_t)r.pickl({0, 99, 100, 101, 10000000, 100000000, 1000000000, 0xFFFFFFFFll, 4294967200ll}) : (uint32_t)r.next();
             e.c = r.chance(0.5) ? 0x10 : (uint32_t)(r.next() & 0xFFFF);
+            if (r.chance(0.6)) e.c |= (uint32_t)(1 + r.below(5)) << 24; // the record's device kind (bond, bridge, ethernet, 802.11, vlan), top byte, 0 = as the daemon set it
             p.evs.push_back(e);
             if (r.chance(0.3)) p.nics[i].loopback = true;
         }
@@ -339,7 +340,7 @@ static void deliver_due() {
         const W2Ev &e = g_plan.evs[g_next_ev++];
         if (e.nic < 0 || e.nic >= (int)g_nic.size()) continue;
         NicRt &n = g_nic[e.nic];
-        if (e.kind == EV_LINK) { if (n.thread_arg) { w2_set_link(n.thread_arg, e.a, e.b, e.c); g_probe["link_event"]++; } continue; }
+        if (e.kind == EV_LINK) { if (n.thread_arg) { w2_set_link(n.thread_arg, e.a, e.b, e.c & 0xFFFFFF, (int)(e.c >> 24) - 1); g_probe["link_event"]++; } continue; }
         if (n.fd < 0) continue; // interface never came up
         n.rxq.push_back({e.kind, e.frame});
         g_log.u64(0xF4A30000ull + (uint64_t)e.nic); g_log.u64(e.t);
@@ -635,7 +636,7 @@ static void tx_monitors() {
                         if (lb != n.cfg.loopback) g_viol.push_back({"linux-loopback-bit", std::string("loopback characteristics bit is ") + (lb ? "set" : "clear") + " but IFF_LOOPBACK is " + (n.cfg.loopback ? "set" : "clear")});
                         if (g_probe.count("link_event")) {
                             uint32_t medium = 0; bool have = false;
-                            for (auto &e : g_plan.evs) if (e.kind == EV_LINK && e.nic == (int)(&n - &g_nic[0])) { medium = e.c; have = true; }
+                            for (auto &e : g_plan.evs) if (e.kind == EV_LINK && e.nic == (int)(&n - &g_nic[0])) { medium = e.c & 0xFFFFFF; have = true; }
                             if (have) { bool fdx = (c & (0x2000u << 16)) != 0; if (fdx != ((medium & 0x10) != 0)) g_viol.push_back({"linux-duplex-bit", "duplex characteristics bit does not follow IFM_FDX"}); g_probe["duplex_checked"]++; }
                         }
                     }
